@@ -1060,7 +1060,7 @@ func (x *Exec) objElem(st *State, row, idx *Term, elemT types.Type, n int64) *Te
 		b := ts.BoundAt("oi", SBV(64), 150)
 		eb := ts.Select(ts.Select(h, row), b)
 		x.assume(ts.Quant("forall", []*Term{b}, ts.Implies(x.w.bvult(b, ts.BV(uint64(n), 64)),
-			ts.And(x.w.intLt(ts.IntLit(0), eb), x.w.intLe(eb, st.alloc),
+			ts.And(x.w.intLt(ts.IntLit(0), eb),
 				ts.Eq(x.w.Fun("objrow_"+si.name, SInt, eb), row), ts.Eq(x.w.Fun("objidx_"+si.name, SBV(64), eb), b)))))
 	}
 	return e
